@@ -530,6 +530,14 @@ func main() {
 			if json.Unmarshal(in.Raw, &d) == nil {
 				reject(d)
 			}
+		case "conc":
+			var d concDesc
+			if json.Unmarshal(in.Raw, &d) == nil {
+				// not deterministic: the window is repeated a few times (the interleaving has to happen again)
+				for k := 0; k < 5; k++ {
+					conc(d)
+				}
+			}
 		}
 	}
 	if run.Replay != "" {
@@ -538,6 +546,13 @@ func main() {
 		return
 	}
 	r := hx.NewRng(run.Seed)
+	if *concOnly {
+		concCases(r.Fork(), 250)
+		balance()
+		run.Finish()
+		return
+	}
+	concCases(r.Fork(), 350)
 
 	// --- (rows, cols) <= 24 x 24, random positive radius.  thorough: every pair, full lists.
 	//     quick: every pair <= 12 x 12 with full lists; of the larger pairs one residue class of rows+cols mod 4
